@@ -77,6 +77,7 @@ type State struct {
 	touched   map[string]bool // heap names written on this path (incl. via havoc)
 	dead      bool
 	lastRes   map[string]Val // callee name -> result of its most recent call on this path
+	callArgs  map[string][][]Val // callee name -> arguments (receiver first) of each direct call on this path, in order
 	refFacts  map[string]bool // ref terms already known to be allocated (rootid < alloc pointer)
 	heapAlloc map[string]string // heap name -> allocation pointer when its current version was created (default alloc0)
 }
@@ -110,6 +111,12 @@ func (s *State) clone() *State {
 		n.refFacts = make(map[string]bool, len(s.refFacts))
 		for k, v := range s.refFacts {
 			n.refFacts[k] = v
+		}
+	}
+	if s.callArgs != nil {
+		n.callArgs = make(map[string][][]Val, len(s.callArgs))
+		for k, v := range s.callArgs {
+			n.callArgs[k] = append([][]Val(nil), v...)
 		}
 	}
 	if s.lastRes != nil {
